@@ -498,6 +498,17 @@ func (e *Env) judge(cs *Case, p *Prov, item int, o Obs, res *Result) {
 			add("model-mode", class, fmt.Sprintf("%s text %q compares in %s mode, the value model says %s (%s)", p.Name, t, rep.Modes, want, strings.Join(rd.Classes, "+")),
 				want.String(), rep.Modes)
 		}
+		// Where the model is silent about \n \v \f \r before a complete number, the implementation
+		// still has to have ONE notion of a blank: if arithmetic skips them (V+0 is the number), the
+		// text looks numeric and compares numerically; if it does not (V+0 is 0), it is a string.
+		if p.Class == ClassInput && want == c05model.ModeDontCare && rd.LeadDC && !rd.TrailDC && rd.Num != 0 && !math.IsInf(rd.Num, 0) &&
+			(rep.Modes == "numeric" || rep.Modes == "string") {
+			skips := SameNum(N, rd.Num)
+			if skips != (rep.Modes == "numeric") && (skips || N == 0) {
+				add("law-blank-notion", "blank:"+strings.Join(rd.Classes, "+"), fmt.Sprintf("%s text %q: arithmetic reads %s (leading control blanks %s) but comparisons are in %s mode",
+					p.Name, t, o.Arith[0], map[bool]string{true: "skipped", false: "not skipped"}[skips], rep.Modes), "one notion of a blank", rep.Modes)
+			}
+		}
 		if !rd.NumDC && !SameNum(N, rd.Num) {
 			add("model-number", "number:"+strings.Join(rd.Classes, "+"), fmt.Sprintf("%s text %q stands for %s in arithmetic, its longest numeric prefix is %s",
 				p.Name, t, o.Arith[0], strconv.FormatFloat(rd.Num, 'g', 17, 64)), strconv.FormatFloat(rd.Num, 'g', 17, 64), o.Arith[0])
